@@ -170,8 +170,9 @@ def run(ctx):
     # freshly generated copies of swar/lookup/muldiv/msb64nz are the very terms C25's theorems are about -- a stale
     # Gen_bit_reversal.v that differs from the current source makes that obligation fail.
     if not ctx.replay:
-        missing = [u for u in C25_UNITS if not os.path.exists(os.path.join(GEN, "Gen_%s.v" % u))]
-        tr_c25 = Translation(ctx, "c25", None, missing) if missing else None
+        # always brought up to date from the current tree (the stamp skips the run when nothing changed): a stale
+        # Gen_bit_reversal.v left by an earlier run against a modified tree must not raise an alarm here
+        tr_c25 = Translation(ctx, "c25", None, list(C25_UNITS))
         if tr_c25:
             tr_c25.wait()                 # never two translators at once: each reads the other's Gen_*.meta.json
         tr_sl = Translation(ctx, "splitlist", UNITS_FILE, [UNIT])
